@@ -643,7 +643,13 @@ pub fn gen_dimacs_bounds(kind: &str, lit: &str, rng: &mut StdRng) -> Vec<u8> {
                 out.push('-');
             }
             out.push_str(if mag == "0" { "1" } else { &mag });
-            out.push(' ');
+            // the clause may go on on the next line (after comments / blank lines): the limits hold there too
+            match rng.gen_range(0..8) {
+                0 => out.push('\n'),
+                1 => out.push_str(" \nc between\n\n"),
+                2 => out.push_str("\n \t"),
+                _ => out.push(' '),
+            }
         }
         out.push_str("0\n");
     }
